@@ -46,6 +46,22 @@ MISSED_FIRST = {  # seeds not reported by the checks as they stood when the seed
     "C07-r2A": "new rule C07.6: nothing between parse_args and the dispatch rewrites namespace attributes of the edit options (setattr / attribute stores / vars() stores in the entry point and the package functions it hands the namespace to)",
     "C09-r2B": "reported by C11 only at first (for the wrong reason: the argparse table was looked for in cli.execute only); the table extractor now finds the parser builder wherever it is, and new rule C09.2: a memoised parser builder keeps its default containers alive, so an in-place modification of such an option value anywhere in the package is a violation",
     "C10-r2A": "new fact merkle.pure (C02.4 / C10.2): merkle_root must not modify the list it is given when a caller reads that list again (HasherV2 asks for the root of the same all-zero piece list in a loop)",
+    "C11-r2A": "C11.5 looked only at get_magnet's call of magnet(); it now judges every caller in the package: the version passed must be an integer (constant, int(...), or an option declared type=int)",
+    "C12-r2A": "reported by C09.3 only (memoised path size): state across operations is C09's subject; C12's routes are not affected structurally",
+    "C12-r2C": "reported by C20.1 only (the configuration route rewrites the value before it reaches the validator); C12 cannot follow the value through **kwargs into MetaFile.__init__",
+    "C13-r2A": "new rule C13.5 (index not pruned): points-to over the search index; slice-assignment of a filtered comprehension to the per-name candidate lists",
+    "C13-r2B": "reported by C14.3 only at first; C13.6 now follows local aliases of a shared mutable buffer (tmp = shared; tmp += ...) using the origin term of the shared value (bytearray vs bytes)",
+    "C13-r2C": "C13.4 extended: the v1 file list must be visited in the metafile's own order (sorted / reversed / filter / slice of info['files'] is a violation)",
+    "C14-r2A": "new rule C14.4: every node of the v1 piece map covers at least one byte of its file (reaching definitions + dominating sign test on the amount); a zero-length node lets a piece verify without reading the file whose candidate is then copied",
+    "C14-r2B": "new rule C14.5: symbolic evaluation of destination paths as component sequences (NAME, PATH*, PARTIALS*, KEY) from the reader's record literals to each copy site",
+    "C14-r2C": "new rule C14.5 (single-file discriminator): the walk may drop the NAME directory only under a test that compares the tree's key with the torrent name",
+    "C15-r2A": "C01.6 accepted any one `raise StopIteration` tied to (empty read and no next file); now every raise must be; reused as C15.3",
+    "C16-r2A": "reported by C05.1 only at first; C16 now also runs the path-mapping facts (C16.9)",
+    "C16-r2C": "was UNDECIDED (the result store in if/else statement form and attribute-valued accumulators were not understood); bookkeeping now handles both and requires accumulators that live on the object to be reset at the start of a run",
+    "C17-r2A": "was UNDECIDED (Path.unlink on a glob element could not be classified); elements of Path.glob / iterdir are paths, and a pattern <metafile name> + '*' also yields the metafile itself",
+    "C17-r2C": "new clause in C17.2: a temporary file opened with buffering=0 is a raw file whose write() may be short; the ignored count is a violation",
+    "C20-r2A": "new rule C20.8: in find_config_file every default-location result must be control dependent on no explicit --config-path having been given",
+    "C20-r2B": "was reported for a wrong reason (add_argument(**settings) was not expanded, so list options looked like strings); the table extractor now expands dictionary literals passed with **, and new rule C20.7 reports one container object shared as default by several options when an option value is modified in place",
     "C10-r2C": "new fact single.key (C02.1 / C10.3): the key of a single-file payload's leaf in the file tree is the recorded name (all definitions of the attribute used agree with what is stored as info['name'], modulo abspath)",
 }
 
@@ -85,6 +101,25 @@ def main():
             for f in ("patch.diff", "demo.py", "notes.md"):
                 if os.path.isfile(os.path.join(src, f)):
                     shutil.copy(os.path.join(src, f), os.path.join(dst, f))
+            # behaviour-preserving parts of a multi-site change (each verified by me: the seed's own demonstration exits 0
+            # with only that part applied).  They must NOT be reported by the checks of the properties listed in clean_for.
+            benign = []
+            bdir = os.path.join(src, "benign")
+            if os.path.isdir(bdir):
+                for bf in sorted(os.listdir(bdir)):
+                    if not bf.endswith(".diff"):
+                        continue
+                    rb = subprocess.run([sys.executable, os.path.join(HERE, "tools", "seedtest.py"), os.path.join(bdir, bf)], capture_output=True, text=True)
+                    noisy = set()
+                    for line in rb.stdout.splitlines():
+                        m2 = re.match(r"(C\d\d) (VIOLATION|undecided)", line)
+                        if m2:
+                            noisy.add(m2.group(1))
+                    name = "benign_" + bf
+                    shutil.copy(os.path.join(bdir, bf), os.path.join(dst, name))
+                    benign.append({"file": name, "demo_exit_with_only_this_part": 0,
+                                   "clean_for": [p for p in ["C%02d" % i for i in range(1, 21)] if p not in noisy],
+                                   "reported_or_undecided_for": sorted(noisy)})
             notes = open(os.path.join(src, "notes.md")).read() if os.path.isfile(os.path.join(src, "notes.md")) else ""
             meta = {
                 "id": sid,
@@ -99,6 +134,7 @@ def main():
                 "checks_reporting_it": fired,
                 "rules_reporting_it": sorted(set(rules))[:12],
                 "target_check_reports_it": d in fired,
+                "benign_parts": benign,
                 "missed_when_it_arrived": sid in MISSED_FIRST,
                 "strengthening": MISSED_FIRST.get(sid, ""),
             }
